@@ -1002,6 +1002,21 @@ def check_outcomes(ctx, rep, rng, tier):
                         cases.append([w, op])
                         kinds.append(kind)
                 jobs.append((chain, hmode, setter, pw, members, a, cases, kinds))
+    # members whose stored CRC-32 takes a boundary value (0 is falsy in Python, ffffffff is -1 as a signed word): the CRC is the
+    # only thing that rejects a wrong password on chains without a structured decoder
+    bset = [("crc-zero.bin", arch.forge_crc(marker_bytes(rng, 44, "z0"), 0)),
+            ("crc-ones.bin", arch.forge_crc(marker_bytes(rng, 29, "z1"), 0xFFFFFFFF))]
+    for chain in [c for c in AES_CHAINS if c in ("aes", "copy+aes", "lzma2+aes")]:
+        for bi, one in enumerate(bset):
+            pw = PASSWORDS[bi]
+            a = build([one], chain, pw, 1)
+            cases = [[pw, "extractall_factory"], [pw, "testzip"]]
+            kinds = ["right", "right"]
+            for kind, w in wrong_passwords(pw)[:2]:
+                for op in ("extractall_factory", "extractall", "testzip", "extract_one"):
+                    cases.append([w, op])
+                    kinds.append(kind)
+            jobs.append((chain, 1, False, pw, [one], a, cases, kinds))
     pool = multiprocessing.pool.ThreadPool(12)
     try:
         results = pool.map(lambda j: sandbox_outcomes(j[5], j[4], j[6]), jobs)
